@@ -334,3 +334,41 @@ for _fn in ("opt_param_narrow", "opt_param_narrow_early"):
         canaries={"always-zero": "result == 0", "old-key": "implies(key is not None, result == 0)"},
         gen=lambda rng: (lambda k: {"d": {"a": 1, "b": 2}, "key": k})(rng.choice([None, "a", "b"])),
     )
+
+# ---- `any(True for ..)` = non-empty; entailed guards drop out of conditional effects (round 4, C13 #11) ----------------------
+case(
+    B + "any_const_guard", params={"c": Ref("STCounter"), "xs": List(INT)}, returns=INT, modifies=["STCounter.count"],
+    requires=["c.count >= 0"],
+    ensures={"bumped": "implies(len(xs) > 0, c.count == old(c.count) + 1 and result == 1)", "kept": "implies(len(xs) == 0, c.count == old(c.count) and result == 0)"},
+    canaries={"always": "c.count == old(c.count) + 1", "never": "result == 0"},
+    gen=lambda rng: {"c": rng.randint(0, 3), "xs": ints(rng)}, build=lambda d: {"c": M.STCounter(d["c"]), "xs": d["xs"]},
+)
+case(
+    B + "any_const_guard", name="nonempty", params={"c": Ref("STCounter"), "xs": List(INT)}, returns=INT, modifies=["STCounter.count"],
+    requires=["c.count >= 0", "len(xs) > 0"],
+    ensures={"bumped": "c.count == old(c.count) + 1 and result == 1"},
+    canaries={"never": "result == 0"},
+    gen=lambda rng: {"c": rng.randint(0, 3), "xs": [1] + ints(rng)}, build=lambda d: {"c": M.STCounter(d["c"]), "xs": d["xs"]},
+)
+
+# ---- hint form `same-witnesses: implies(A, B)` (round 4, C03 #6) --------------------------------------------------------------------
+_DUP = "any(any(any(any({0}[i][a] == {0}[j][b] and (i != j or a != b) for b in range(len({0}[j]))) for a in range(len({0}[i]))) for j in range(len({0}))) for i in range(len({0})))"
+_PW = "len(xs) == len(ys) and all(xs[i] == ys[i] for i in range(len(xs)))"
+case(
+    B + "witness_transfer", params={"xs": List(List(INT)), "ys": List(List(INT))}, returns=INT, requires=[_PW],
+    ensures={"both": "implies(" + _DUP.format("xs") + ", " + _DUP.format("ys") + ")"},
+    canaries={"never-dup": "not " + _DUP.format("xs")},
+    hints={"z = 0": ["same-witnesses: implies(" + _DUP.format("xs") + ", " + _DUP.format("ys") + ")"]},
+    gen=lambda rng: (lambda v: {"xs": v, "ys": [list(x) for x in v]})([ints(rng, hi=2) for _ in range(rng.randint(0, 3))]),
+)
+case(
+    # a FALSE implication under the tactic: ys may differ from xs, nothing transfers
+    B + "witness_transfer", name="false-hint", params={"xs": List(List(INT)), "ys": List(List(INT))}, returns=INT, requires=["len(xs) == len(ys)"],
+    must_fail=["assert.hint"],
+    hints={"z = 0": ["same-witnesses: implies(" + _DUP.format("xs") + ", " + _DUP.format("ys") + ")"]},
+    gen=lambda rng: {"xs": [[1]], "ys": [[2]]}, n=2,
+)
+case(
+    B + "witness_transfer", name="not-an-implication", params={"xs": List(List(INT)), "ys": List(List(INT))}, returns=INT,
+    hints={"z = 0": ["same-witnesses: len(xs) >= 0"]}, expect="unsupported", msg="same-witnesses",
+)
